@@ -11,7 +11,7 @@ THEOREMS = [
     "Sb.Proofs.toPoly_deriv", "Sb.Proofs.toPoly_scale", "Sb.Proofs.eval_toPoly", "Sb.Proofs.derivative_inTime",
     "Sb.C08.runQuery_spec",
 ]
-RULE = ("trajectory blocks as in C01 with positive durations; velocity and acceleration queries at {-inf,<0,0,boundaries±1ulp, "
+RULE = ("(histories also contain the player's total-duration query between derivative queries of one instant) " "trajectory blocks as in C01 with positive durations; velocity and acceleration queries at {-inf,<0,0,boundaries±1ulp, "
         "interior, end, beyond, +inf}, interleaved with position queries at the same and different times in several orders so that "
         "the lazily computed derivative polynomials are exercised (v then a, a then v, a first, repeated); compared with the exact "
         "rational derivative of the model within the float32 bound. Non-trivial: a segment of degree >= 1 on some axis.")
@@ -41,6 +41,12 @@ def generate(rng, tier):
             seq.append(rng.choice("pva") + str(t))
             seq.append(rng.choice("va") + str(rng.choice(ts)))
         out.append((f"traj b {hx(blk)} " + " ".join(seq), nt))
+        # ... and with the player's own duration query (which walks the cursor to the end and back) between two derivative
+        # queries of the same instant
+        seq = []
+        for t in ts[:6]:
+            seq += [f"v{t}", "d", f"v{t}", f"a{t}", "d", f"a{t}", f"v{t}"]
+        out.append((f"traj {'ob'[i % 2]} {hx(blk)} " + " ".join(seq), nt))
     # curved segments that come back to where they started (every axis ends on its start value while the inner control
     # points differ): velocity and acceleration are not zero inside, although start and end points coincide
     from vlib.gen_stats import build
